@@ -310,6 +310,27 @@ func (e *Engine) builtin(st *state, fr *frame, in ssa.CallInstruction, name stri
 		}
 		return one(st, &Val{Op: "call", Name: "append", Args: []*Val{args[0], a1}, Type: rt})
 	case "copy":
+		// a number staged in a local array and copied over a part of the buffer's bytes of exactly its width
+		// (`PutUint32(tmp[:], n); copy(buf.Bytes()[pos:start], tmp[:])`): the in-place patch PutUint32 on that part is
+		if bv := bufferIn(args[0]); bv != nil && bv.Op == "bufbytes" && len(bv.Args) > 0 {
+			if ib := stripCT(e.contentOf(st, args[1])); ib != nil && ib.Op == "intbytes" && ib.ID == 0 && len(ib.Args) == 1 && ib.Type != nil {
+				if sz, okS := fixedSize(ib.Type); okS {
+					if d := stripCT(args[0]); d.Op == "slice" && len(d.Args) >= 3 && d.Args[1] != nil && d.Args[2] != nil && (len(d.Args) < 4 || d.Args[3] == nil) {
+						width := &Val{Op: "binop", Name: "-", Args: []*Val{d.Args[2], d.Args[1]}, Type: types.Typ[types.Int]}
+						exact := false
+						if k, isC := affOf(width).IsConst(); isC && k == sz {
+							exact = true
+						} else if t, known := lenDiffCond(e, st, &Val{Op: "binop", Name: "==", Args: []*Val{width, mkInt(sz)}, Type: types.Typ[types.Bool]}); known && t {
+							exact = true
+						}
+						if exact {
+							e.addEvent(st, fr, &Event{Kind: EvPatch, Buf: bv.Args[0], IntType: ib.Type, Order: ib.Name, Dst: args[0], Src: ib.Args[0], Size: mkInt(sz)}, in)
+							return one(st, mkInt(sz))
+						}
+					}
+				}
+			}
+		}
 		if base, lo, hi, total, ok := byteArraySegment(args[0]); ok && hi > lo {
 			// the head of a field of a record laid out in a local array: src cut to the field's width, the rest of the
 			// field as it was (zero) until a fill loop says otherwise
